@@ -212,13 +212,29 @@ def clause_c(ctx, fx, U):
                 ctx.finding("C01.c", fn, "element-dropped", "after a digest matched a disclosure the function can return Ok(None)", line=bad[0]["line"])
             else:
                 ctx.ok("C01.c", fn, "element-kept", "on the found edge the only Ok exit is Ok(Some(value))", line=line)
-            # caller pushes on Some
-            for cf in U.fns:
+            # caller pushes on Some (a caller that merely hands the result on as its own result passes the obligation to its callers)
+            sites = []
+            work, seen_f = [fn.name], set()
+            while work:
+                target = work.pop()
+                if target in seen_f:
+                    continue
+                seen_f.add(target)
+                for cf in U.fns:
+                    cv = vals(cf)
+                    for b2, t2 in cf.calls():
+                        if t2.get("resolved") != target or cf.name == target:
+                            continue
+                        cn = cv.call_node(b2)
+                        rv_ = cv.return_value()
+                        forwards = not next_loops(cf) and any(x is cn for x in walk(rv_)) and (cf.local_ty(0) or "").startswith("std::result::Result<std::option::Option<")
+                        if forwards:
+                            work.append(cf.name)
+                        else:
+                            sites.append((cf, b2, t2, cn))
+            for (cf, b2, t2, cn) in sites:
                 cv = vals(cf)
-                for b2, t2 in cf.calls():
-                    if t2.get("resolved") != fn.name or cf is fn:
-                        continue
-                    cn = cv.call_node(b2)
+                if True:
                     somes = []
                     for (sb, subj) in common.discr_switches(cf):
                         s = peel(subj)
